@@ -868,8 +868,8 @@ fn join(toks: &[&str]) -> String {
 /// zyconf replay-format CASES TRACE SUMMARY TIER
 pub fn replay_format(cases: &str, trace: &str, summary: &str, tier: &str) {
     let cases = read_ndjson(std::path::Path::new(cases));
-    let opts = option_set(tier);
-    let comment_stride = if tier == "quick" { 3 } else { 1 };
+    let opts_full = option_set(tier);
+    let opts_quick = option_set("quick");
     let results = par_map_with(
         &cases,
         threads(),
@@ -880,6 +880,11 @@ pub fn replay_format(cases: &str, trace: &str, summary: &str, tier: &str) {
             let (toks, kinds, pars) = (strs("toks"), strs("kinds"), strs("pars"));
             let bare_ok = c["bareOk"].as_bool().unwrap();
             let rewritten = c["rw"].as_bool().unwrap();
+            // the deep (depth 3) trees of the thorough tier are many: they get the quick plan, the thorough extras
+            // (all 36 option combinations, every gap, line-break layouts) go to the trees of depth <= 2
+            let deep = c["d"].as_u64().unwrap_or(0) >= 3;
+            let opts = if deep { &opts_quick } else { &opts_full };
+            let comment_stride = if tier == "quick" || deep { 3 } else { 1 };
             let pick = |f: &dyn Fn(&str) -> bool| -> (Vec<&str>, Vec<&str>) {
                 let ix: Vec<usize> = (0..toks.len()).filter(|i| f(&pars[*i])).collect();
                 (ix.iter().map(|i| toks[*i].as_str()).collect(), ix.iter().map(|i| kinds[*i].as_str()).collect())
@@ -918,7 +923,7 @@ pub fn replay_format(cases: &str, trace: &str, summary: &str, tier: &str) {
             // every spelling under every option
             let mut canon_bad = 0u64;
             let mut skeleton_bad = 0u64;
-            for opt in &opts {
+            for opt in opts.iter() {
                 let mut outs: Vec<(&str, Option<String>)> = Vec::new();
                 outs.push(("full", eval_case(&full, opt, &origin, &mut tally, &mut findings)));
                 outs.push(("minimal", eval_case(&min, opt, &origin, &mut tally, &mut findings)));
@@ -1096,7 +1101,7 @@ pub fn replay_format(cases: &str, trace: &str, summary: &str, tier: &str) {
         },
         |_| (),
     );
-    write_out(results, trace, summary, json!({"trees": cases.len(), "options": opts.iter().map(|o| o.name()).collect::<Vec<_>>()}));
+    write_out(results, trace, summary, json!({"trees": cases.len(), "options": opts_full.iter().map(|o| o.name()).collect::<Vec<_>>()}));
 }
 
 fn write_out(results: Vec<(Tally, Vec<Value>, Value)>, trace: &str, summary: &str, mut extra: Value) {
